@@ -145,7 +145,19 @@ class State:
         if goal.is_const():
             return goal.c <= 0
         if depth == 0:
-            return False
+            # close with single-variable bounds only (cheap, no branching)
+            c = goal.c
+            for name, a in goal.t.items():
+                best = None
+                for f in self.facts:
+                    if len(f.t) == 1 and name in f.t and (f.t[name] > 0) == (a > 0):
+                        # f: k*name + fc <= 0  => a*name <= -fc*a/k
+                        bound = -f.c * a / f.t[name]
+                        best = bound if best is None else min(best, bound)
+                if best is None:
+                    return False
+                c += best
+            return c <= 0
         # pick the term that has the fewest usable facts first
         best = None
         for name, a in goal.t.items():
@@ -254,6 +266,11 @@ class State:
 
 
 # --------------------------------------------------------------------------
+
+# libc routines whose pointer parameter at that position is pointer-to-const (ISO C prototypes)
+READONLY_ARGS = {'memcpy': (1,), 'memmove': (1,), 'memcmp': (0, 1), 'strlen': (0,), 'write': (1,), 'fwrite': (0,),
+                 'strcmp': (0, 1), 'strncmp': (0, 1), 'memchr': (0,)}
+
 
 class Analysis:
     """one function, one set of tracked buffers"""
@@ -597,9 +614,11 @@ class Analysis:
             else:
                 self.default_call(ev, st)
             # a call may overwrite locals passed by address
-            for a in ev.args:
+            for i, a in enumerate(ev.args):
                 au = unwrap(a)
                 if au.get('k') == 'addr' and unwrap(au['e']).get('k') == 'var':
+                    if i in READONLY_ARGS.get(c, ()):
+                        continue    # pointer-to-const parameter of a libc routine: the local is only read
                     st.forget(unwrap(au['e'])['n'])
         elif ev.kind == 'RETURN':
             v = self.lin(ev.e, st) if ev.e is not None else None
